@@ -30,7 +30,8 @@ ASSUMPTIONS = ["buffer ids are opaque: the model only requires an id not to "
 REQUIRED = ["packet_ins", "buffered", "unbuffered_pool_full", "released_by_packet_out",
             "released_by_flow_mod", "released_by_rejected_flow_mod", "flow_mod_modify_with_buffer", "rebuffered_during_release", "stale_uses",
             "bogus_uses", "truncated",
-            "ids_reused_after_release"]
+            "ids_reused_after_release", "advertised_buffer_counts_read",
+            "packet_outs_with_buffer_id_and_data", "stale_or_bogus_ids_in_flow_mods"]
 TIMEOUT = {"quick": 900, "thorough": 7200}
 
 NPORTS = 4
@@ -53,7 +54,14 @@ ACTS = [[dict(type=0, port=2, max_len=0)],
         # and a new buffer, while the old one is being released
         [dict(type=0, port=OA.OFPP_CONTROLLER, max_len=40)],
         [dict(type=0, port=2, max_len=0),
-         dict(type=0, port=OA.OFPP_CONTROLLER, max_len=0xffff)]]
+         dict(type=0, port=OA.OFPP_CONTROLLER, max_len=0xffff)],
+        # ... and the action list goes on rewriting after the copy for the
+        # controller was taken: what is stored is the packet as it was then
+        [dict(type=0, port=OA.OFPP_CONTROLLER, max_len=0xffff),
+         dict(type=4, dl_addr=b"\x0a" * 6), dict(type=0, port=3, max_len=0)],
+        [dict(type=5, dl_addr=b"\x0b" * 6),
+         dict(type=0, port=OA.OFPP_CONTROLLER, max_len=64),
+         dict(type=4, dl_addr=b"\x0c" * 6), dict(type=0, port=2, max_len=0)]]
 
 
 def frame (uid, dst, size):
@@ -65,8 +73,21 @@ def run_history (case, rep):
   def fire (key, what):
     rep.violation("C18 " + key, what, case)
   pool = case["pool"]
+  miss0 = case.get("miss0", 128)
   sw = simnet.DirectSwitch(dpid=DPID, ports=NPORTS, max_buffers=pool,
-                           miss_send_len=128)
+                           miss_send_len=miss0)
+  # the buffer count the switch *advertises* is the bound
+  sw.feed(ofwire.enc_message("features_request", dict(xid=2)))
+  try:
+    fr_ = [m for m in ofwire.dec_stream(sw.take_bytes()) if m["name"] == "features_reply"]
+  except ofwire.WireError:
+    fr_ = []
+  if len(fr_) != 1:
+    fire("no features reply", ""); return True
+  rep.count("advertised_buffer_counts_read")
+  if fr_[0]["n_buffers"] != pool:
+    fire("advertised buffer count is not the size of the pool",
+         "n_buffers %d, pool %d" % (fr_[0]["n_buffers"], pool)); return True
   cfg = {p: 0 for p in range(1, NPORTS + 1)}
   # entries that send to the controller
   blob = b""
@@ -79,7 +100,7 @@ def run_history (case, rep):
   sw.feed(blob)
   if sw.take_bytes():
     fire("setup flow_mod rejected", ""); return True
-  miss_len = 128
+  miss_len = miss0
   outstanding = {}      # id -> (frame bytes, in_port)
   released = []         # ids used at least once
   ever = set()
@@ -171,6 +192,7 @@ def run_history (case, rep):
       if not judge_pin(pins[0], raw, in_port, reason, limit): return True
     elif k in ("po", "fm", "fmrej", "stale", "bogus"):
       acts = ACTS[op[2] % len(ACTS)]
+      both = False
       if k in ("po", "fm", "fmrej"):
         if not outstanding: continue
         ids = sorted(outstanding)
@@ -182,8 +204,16 @@ def run_history (case, rep):
         bid = cand[op[1] % len(cand)]
         rep.count("stale_uses")
       else:
-        bid = [0, 1 << 31, pool + 1, 0x7fffffff, 1000][op[1] % 5]
-        if bid in outstanding: continue
+        live = sorted(outstanding)
+        cands = [0, 1 << 31, pool + 1, 0x7fffffff, 1000]
+        if live:
+          # ids that differ from a live one only in high bits, or by the
+          # size of the pool
+          l0 = live[op[1] % len(live)]
+          cands += [l0 | 0x80000000, l0 + 0x10000, l0 + 0x100, l0 + pool,
+                    l0 + (1 << 24)]
+        bid = cands[(op[1] * 7 + op[2]) % len(cands)]
+        if bid in outstanding or bid == NO_BUFFER: continue
         rep.count("bogus_uses")
       if k == "fmrej":
         # a flow_mod that names the buffer but whose entry the switch refuses
@@ -192,7 +222,7 @@ def run_history (case, rep):
         m = dict(ALLM); m["in_port"] = 59000 + op[1] % 7
         m["wildcards"] = OM.FW_ALL & ~OM.FW_IN_PORT
         raw_msg = ofwire.enc_message("flow_mod", dict(
-          xid=xid, match=m, cookie=0, command=0, idle_timeout=0,
+          xid=xid, match=m, cookie=0, command=0 if op[1] % 3 else 9, idle_timeout=0,
           hard_timeout=0, priority=10, buffer_id=bid, out_port=0xffff,
           flags=2 if op[1] % 2 else 4, actions=acts))
       elif k == "fm":
@@ -215,6 +245,25 @@ def run_history (case, rep):
           xid=xid, match=m, cookie=0, command=command, idle_timeout=0,
           hard_timeout=0, priority=1, buffer_id=bid, out_port=0xffff, flags=0,
           actions=acts))
+      elif k in ("stale", "bogus") and (op[1] + op[2]) % 3 == 0:
+        # an unknown or used id named by a flow_mod (ADD or MODIFY)
+        extra_flows += 1
+        m = dict(ALLM); m["in_port"] = 60000 - extra_flows
+        m["wildcards"] = OM.FW_ALL & ~OM.FW_IN_PORT
+        raw_msg = ofwire.enc_message("flow_mod", dict(
+          xid=xid, match=m, cookie=0, command=op[1] % 2, idle_timeout=0,
+          hard_timeout=0, priority=1, buffer_id=bid, out_port=0xffff, flags=0,
+          actions=acts))
+        rep.count("stale_or_bogus_ids_in_flow_mods")
+      elif k == "po" and (op[1] * 3 + op[2]) % 7 == 0:
+        # a packet_out that names the buffer *and* carries data: the id is
+        # used (which of the two is sent is not judged)
+        both = True
+        acts = ACTS[0]
+        raw_msg = ofwire.enc_message("packet_out", dict(
+          xid=xid, buffer_id=bid, in_port=0xffff, actions=acts,
+          data=frame(999000 + xid, CTRL_DST[0][:5] + b"\xee", 30)))
+        rep.count("packet_outs_with_buffer_id_and_data")
       else:
         raw_msg = ofwire.enc_message("packet_out", dict(
           xid=xid, buffer_id=bid, in_port=0xffff, actions=acts, data=b""))
@@ -234,6 +283,11 @@ def run_history (case, rep):
         nt = True
         rep.count("released_by_rejected_flow_mod" if k == "fmrej" else
                   "released_by_flow_mod" if k == "fm" else "released_by_packet_out")
+        if both:
+          if len(outstanding) > pool:
+            fire("more packets stored than the advertised buffer count",
+                 "%d > %d" % (len(outstanding), pool)); return True
+          continue
         exp = []
         to_ctl = []
         for spec, fr, ml in OA.run(raw, acts):
@@ -284,9 +338,11 @@ def run_history (case, rep):
           fire("valid buffer use answered with an error",
                "error(%d,%d)" % (errs[0]["type"], errs[0]["code"])); return True
       else:
-        if out:
+        if out or any(m["name"] == "packet_in" for m in msgs):
           fire("unknown or already-used buffer id emitted a packet",
-               "id %d emitted on %r" % (bid, [p for p, _ in out])); return True
+               "id %d emitted on %r%s" % (bid, [p for p, _ in out],
+                                          " and to the controller" if not out else ""))
+          return True
     elif k == "cfg":
       miss_len = op[1]
       sw.feed(ofwire.enc_message("set_config", dict(xid=xid, flags=0,
@@ -306,7 +362,7 @@ def do_case (case, rep):
     rep.violation("C18 harness-visible exception",
                   traceback.format_exc()[-900:], case)
     nt = True
-  rep.case(repr((case["pool"], case["ops"])).encode(), nontrivial=bool(nt))
+  rep.case(repr((case["pool"], case["ops"], case.get("miss0"))).encode(), nontrivial=bool(nt))
 
 
 def gen (rng, n, maxlen):
@@ -333,7 +389,9 @@ def gen (rng, n, maxlen):
         ops.append(["bogus", rng.randrange(5), rng.randrange(len(ACTS))])
       else:
         ops.append(["cfg", rng.choice([0, 14, 64, 128, 0xffff])])
-    yield dict(pool=pool, ops=ops)
+    case = dict(pool=pool, ops=ops)
+    if rng.random() < 0.4: case["miss0"] = rng.choice([0, 14, 64, 0xffff])
+    yield case
 
 
 def plan (tier, seed):
